@@ -122,6 +122,9 @@ type c10Data struct {
 	Label    string   `json:"label,omitempty"`
 	Waiting  string   `json:"waiting,omitempty"`
 	Panicked string   `json:"panicked,omitempty"`
+	nbM      []string
+	nbK, nbV []int
+	nbOut    []string
 	ti       int
 }
 
@@ -644,6 +647,30 @@ func c10LinBody(rc *RunCtx) {
 		})
 		tasks = append(tasks, tk)
 	}
+	// a neighbour: a second instance of the same type used by one task of its own while the
+	// first is busy; used alone it must behave exactly as it does sequentially (no state
+	// shared between instances)
+	if simrt.ChanceF(1, 4) {
+		nb := t.New(d.Variant)
+		nn := 3 + simrt.ChooseF(6)
+		var nm []string
+		var nk, nv []int
+		for i := 0; i < nn; i++ {
+			m := points[simrt.ChooseF(len(points))]
+			if m == "Get" && strings.HasPrefix(t.Name, "Request") {
+				m = "GetNoWait" // a lone task must not park
+			}
+			nm, nk, nv = append(nm, m), append(nk, keys[simrt.ChooseF(nKeys)]), append(nv, 7000+i)
+		}
+		simrt.GoNamed("neighbour", func() {
+			var outs []string
+			for i := range nm {
+				outs = append(outs, invoke(nb, nm[i], nk[i], nv[i]))
+			}
+			outs = append(outs, readout(nb, keys))
+			c10Neighbour(d, nm, nk, nv, outs)
+		})
+	}
 	// tasks may stay parked in a blocking dequeue: wait for quiescence, not for their end
 	simrt.Settle(int64(5 * time.Second))
 	for _, tk := range tasks {
@@ -672,6 +699,11 @@ func c10LinBody(rc *RunCtx) {
 }
 
 //go:norace
+func c10Neighbour(d *c10Data, m []string, k, v []int, outs []string) {
+	d.nbM, d.nbK, d.nbV, d.nbOut = m, k, v, outs
+}
+
+//go:norace
 func c10Record(d *c10Data, op *c10Op) { d.Ops = append(d.Ops, op) }
 
 func c10LinAfter(rc *RunCtx, res *simrt.Result) {
@@ -686,6 +718,19 @@ func c10LinAfter(rc *RunCtx, res *simrt.Result) {
 		h = (h ^ uint64(op.Return)) * 1099511628211
 	}
 	rc.OutcomeHash = h
+	if d.nbOut != nil {
+		longKeys = d.LongKeys
+		ref := c10Types[d.ti].New(d.Variant)
+		for i := range d.nbM {
+			if got := invoke(ref, d.nbM[i], d.nbK[i], d.nbV[i]); got != d.nbOut[i] {
+				rc.Violate("C10", "instance-leak", "instance-leak:"+d.Type, fmt.Sprintf("a second %s used by a single task while the first was busy: op %d %s(%d,%d) returned %s, sequentially it returns %s", d.Type, i, d.nbM[i], d.nbK[i], d.nbV[i], d.nbOut[i], got))
+				break
+			}
+		}
+		if got := readout(ref, []int{1, 2, 3, 4}); len(d.nbOut) == len(d.nbM)+1 && got != d.nbOut[len(d.nbM)] {
+			rc.Violate("C10", "instance-leak", "instance-leak:"+d.Type, fmt.Sprintf("a second %s used by a single task while the first was busy ends as %q, sequentially as %q", d.Type, d.nbOut[len(d.nbM)], got))
+		}
+	}
 	var ops []porcupine.Operation
 	for i, op := range d.Ops {
 		if op.Return == 0 {
